@@ -143,7 +143,7 @@ def run_instance(prog, cfg, exempt=None):
                             handed.append(bj)
                             break
                 fld = '.'.join(str(x[2]) for x in slot)
-                k = sum(1 for i in res.instances if i.key.startswith(f'peek:{b.name}:{T.split("::")[-1]}:{fld}#')) + 1
+                k = sum(1 for p_ in peeks if p_[7].startswith(f'peek:{b.name}:{T.split("::")[-1]}:{fld}#')) + 1
                 key = f'peek:{b.name}:{T.split("::")[-1]}:{fld}#{k}'
                 peeks.append((b, bi, st, T, r, slot, fld, key, handed))
         # decide the peeks of this body together: a later inspection of the same child cannot take an arm that an earlier
